@@ -84,7 +84,7 @@ def do_replay(path):
         scale = max(1.0, abs(exp), abs(got) if got == got else 1.0)
         resid = abs(got - exp) / scale if got == got else float('inf')
         print('  native %s = %r   expected (exact arithmetic on the specification side) = %r   scaled residual = %.3e' % (body['lhs_out'], got, exp, resid))
-        bad = resid > 0
+        bad = resid > float(body.get('tol', 1e-6))      # beyond rounding (the solver's counterexamples are chosen with a large residual)
     elif kind == 'uf':
         a, b = nat.outv.get(body['out_a']), nat.outv.get(body['out_b'])
         print('  native %s = %s   %s = %s' % (body['out_a'], D.f2hex(a), body['out_b'], D.f2hex(b)))
